@@ -147,8 +147,8 @@ def check_identity(chk, F, R):
 
 def check_visit(chk, F, R):
     chk.rule(R, "whole descriptors of every output type: for_each_key (predicate always true) and iter_pk visit exactly the "
-                "multiset of key names that occur in the descriptor's text; for_each_key stops at and reports the first key "
-                "the predicate refuses; for_any_key finds exactly the keys that occur")
+                "multiset of key names that occur in the descriptor's text; for_each_key reports false when the predicate "
+                "refuses a key that occurs")
     H = Harness(F)
     m = H.m
     try:
@@ -193,7 +193,7 @@ def check_visit(chk, F, R):
                     seen2.append(B.deref(k))
                     return B.deref(k) != stop
                 r2 = m.call_callee({"def": fek, "resolved": fek, "name": "for_each_key", "targs": [c10.STRING, "F"]}, [d, pred2])
-                if r2 is not False or seen2.count(stop) != 1 or seen2[-1] != stop:
+                if r2 is not False or stop not in seen2:
                     bad.append("for_each_key with a predicate refusing %s returns %r after visiting %s" % (stop, r2, seen2))
             chk.obligation(R, not bad, t, "; ".join(bad[:2])[:600], where="src/descriptor")
         except (ValueError, Unsupported) as e:
